@@ -56,14 +56,14 @@ def shard_finish(rec, tier):
 
 def gen_cases(rng, tier, shard, nshards):
     q = tier == 'quick'
-    n_h, n_l, n_c = (10, 44, 14) if q else (300, 1400, 400)
+    n_h, n_l, n_c = (30, 132, 42) if q else (400, 2200, 600)
     fams = [
         [{'fam': 'honest', 'seed': rng.getrandbits(48), 'big': i % 5 == 4} for i in range(n_h)],
         [{'fam': 'liar', 'seed': rng.getrandbits(48), 'liar': LIARS[(i + shard) % len(LIARS)], 'known': (i // len(LIARS)) % 2 == 0} for i in range(n_l)],
         [{'fam': 'hostile_client', 'seed': rng.getrandbits(48), 'kind': HOSTILE_CLIENT[(i + shard) % len(HOSTILE_CLIENT)]} for i in range(n_c)],
     ]
     fams.append([{'fam': 'race', 'seed': rng.getrandbits(48), 'liars': [LIARS[(i * 5 + shard + j) % len(LIARS)] for j in range(rng.choice([1, 2]))],
-                  'known': i % 2 == 0} for i in range(10 if q else 300)])
+                  'known': i % 2 == 0} for i in range(30 if q else 500)])
     while any(fams):
         for f, w in zip(fams, (1, 4, 1, 1)):
             for _ in range(w):
